@@ -174,6 +174,8 @@ func runC05(c *Ctx) {
 	c.R.Floor("R-C05-4", 8)
 
 	c05Contract(c)
+	// "keeps requesting unsolicited multicast RAs until stopped": a receive error must not end the task as if it had been stopped
+	listenClassifiesBeforeCancel(c, "R-C05-6")
 	c05Loop(c, md)
 }
 
